@@ -25,6 +25,7 @@ RULE = (
     "leaves and compare with a fresh cascade. jpg is compared at the write_image boundary. Non-trivial: >= 2 parents produced; distinct by spec."
     ' Also: re-cascades after a leaf was removed / replaced by an older-dated file; one parent tile whose storing fails with ENOSPC (so'
     'urce-free failpoint in Image.save): the cascade must raise or the tree must be right.'
+    " Round 8: foreign FITS leaves whose headers inherit a mosaic's DATAMIN/DATAMAX cards (incl. entirely undefined ones)."
 )
 ASSUMPTIONS = [
     "a fully transparent pixel is undefined: its hidden colour channels do not take part in the mean (undefined = 0,0,0,0)",
